@@ -35,6 +35,8 @@ CLAIMS = {
          'zstd round trip is a hypothesis of C16_end_to_end; the suffix-array matcher is only required to emit well-formed matches (checked on every generated pair, not proved); the chunked Reader is modelled by its one-shot semantics (chunk independence exercised by sizes crossing 4096/8192/65536, not proved).'),
  'C11': ('proof', 'Calls are programs of critical sections (Blocks.v); C11_update_is_its_blocks / C11_check_is_its_blocks (refinement to the sequential calls); for EVERY number of threads, call lists and schedules: C11_any_schedule_safe (release-stable disk + I-ban), C11_banned_stays_banned, C11_install_block_respects_ban, C11_query_intact, C11_last_good_survives. Correspondence: real threads under a scheduler that decides every acquisition of the config mutex and every update try_lock (verif-hooks sync points) vs the model executing the same block order.',
          'Interleavings at lock-acquisition granularity: all shared state is guarded by the config mutex; network callbacks run unlocked on thread-local data. Memory-model effects below that granularity are outside the model.'),
+ 'C12': ('proof', 'PARTIAL (structural half). C12_call_trace_wf: for every call from every world the calling thread never re-enters the config mutex, runs every network callback with it released, tries the update mutex only with it released, and holds nothing on return; C12_second_update_refused; C12_step_decreases_work / C12_block_advances (no call waits while holding a lock, every call terminates, no waiting cycle). Correspondence: the real per-call lock/network action trace (verif-hooks sync events + thread-local lock depth read inside the network callbacks) equals the model trace on every call of exhaustive histories; hung-connection scenarios with a stalled patch check and a second thread issuing queries, reports, a check and a second update.',
+         'Wall-clock promptness is runtime behaviour: only a 5 s bound in the hung-connection scenarios is enforced. OS mutex fairness is assumed.'),
 }
 NA = {}
 def main():
